@@ -693,6 +693,10 @@ func c05Program(sc *C05Sc, env *Env) *Violation {
 			// (the bytes a device puts on the bus the next time are no longer the ones it meant to)
 			return viol("request-value-modified", "%s: %s", what, m.Mutated)
 		}
+		if si.Accepted && !willAccept {
+			// a maskable request with IFF1 clear: the Step must have executed the instruction at PC
+			return viol("refusal-expected", "%s: maskable request %s was consumed although IFF1 was clear (IFF2=%t): the Step made the accesses of an acceptance, %s, instead of those of the instruction at PC", what, world.FmtRequest(req), before.IFF2, world.FmtLog(m.Bus.Log))
+		}
 		if si.Accepted {
 			var v *Violation
 			if d := req.Data; req.Type != z80.NMIType && before.IM == 0 && len(d) > 0 && !(len(d) == 1 && d[0]&0xc7 == 0xc7) && d[0] != 0xcd {
